@@ -173,4 +173,87 @@ theorem cell_r0 {f : Fmt} (hf : WF f) (N D k q0 : Nat)
       rw [Nat.mul_add, hv, hXX, this, hmul, Nat.sub_mul, ← hXc] at heq
       omega
 
+theorem infBits_even {f : Fmt} (hf : WF f) : f.infBits % 2 = 0 := by
+  obtain ⟨t, ht, _⟩ := T_even hf
+  rw [infBits_eq, ht, Nat.mul_left_comm]; omega
+
+theorem roundNE_zero (f : Fmt) (den : Nat) : roundNE f 0 den = 0 := by
+  rw [roundNE_unfold, if_pos rfl]
+
+/-- **Main lemma**: the result of `roundNE` is the pattern whose rounding cell contains `num/den`. -/
+theorem inCell_roundNE {f : Fmt} (hf : WF f) (num : Nat) {den : Nat} (hd : den ≠ 0) :
+    InCell f (num * 2 ^ (L f)) den (roundNE f num den) := by
+  by_cases hn : num = 0
+  · subst hn
+    rw [roundNE_zero]
+    exact ⟨Nat.zero_le _, fun h => absurd rfl h, fun h => absurd rfl h, fun _ => by simp, fun _ _ => rfl⟩
+  · obtain ⟨h1, h2⟩ := q0_bounds hf hn hd
+    obtain ⟨hA, _⟩ := pow_bounds hf hn hd
+    rw [roundNE_eq hf hn hd]
+    generalize kOf f (ilog2Q num den) = k at *
+    have hD : 0 < den * 2 ^ k := Nat.mul_pos (Nat.pos_of_ne_zero hd) (Nat.two_pow_pos k)
+    obtain ⟨s1, s2, s3, s4⟩ := rhe_spec (num * 2 ^ (L f)) hD
+    generalize rhe (num * 2 ^ (L f)) (den * 2 ^ k) = q0 at *
+    generalize num * 2 ^ (L f) = N at *
+    rw [two_pow_P hf] at h2
+    have hA' : 0 < k → den * 2 ^ k * 2 ^ (f.p - 1) ≤ N := by
+      intro hk; have := hA hk
+      rwa [show den * 2 ^ (f.p - 1 + k) = den * 2 ^ k * 2 ^ (f.p - 1) by
+        rw [Nat.pow_add]; ac_rfl] at this
+    obtain ⟨c1, c2, c3, c4⟩ := cell_r0 hf N den k q0 h1 h2 s1 s2 s3 s4 hA'
+    generalize k * 2 ^ (f.p - 1) + q0 = r0 at *
+    split
+    · rename_i hinf
+      refine ⟨Nat.le_refl _, ?_, fun _ _ => infBits_even hf, fun h => absurd h (Nat.lt_irrefl _),
+        fun h => absurd h (Nat.lt_irrefl _)⟩
+      intro h0
+      have hM := M_ge hf
+      have hr0 : r0 ≠ 0 := by omega
+      refine Nat.le_trans (Nat.mul_le_mul_left den (Nat.add_le_add ?_ ?_)) (c3 hr0)
+      · exact ival_mono f (by omega)
+      · exact ival_mono f hinf
+    · rename_i hinf
+      exact ⟨by omega, c3, c4, fun _ => c1, fun _ => c2⟩
+
+/-- Cells are ordered: a smaller rational cannot lie in the cell of a larger pattern. -/
+theorem inCell_mono {f : Fmt} {N1 D1 r1 N2 D2 r2 : Nat} (c1 : InCell f N1 D1 r1)
+    (c2 : InCell f N2 D2 r2) (hD1 : 0 < D1) (hD2 : 0 < D2) (hle : N1 * D2 ≤ N2 * D1) : r1 ≤ r2 := by
+  apply Nat.le_of_not_lt
+  intro hlt
+  have hr1 : r1 ≠ 0 := by omega
+  have hr2 : r2 < f.infBits := Nat.lt_of_lt_of_le hlt c1.le_inf
+  have hU := c2.upper hr2
+  have hLo := c1.lower hr1
+  have m1 : ival f r2 ≤ ival f (r1 - 1) := ival_mono f (by omega)
+  have m2 : ival f (r2 + 1) ≤ ival f r1 := ival_mono f (by omega)
+  generalize ha : ival f r2 + ival f (r2 + 1) = a at *
+  generalize hb : ival f (r1 - 1) + ival f r1 = b at *
+  have hab : a ≤ b := by omega
+  -- D1*D2*a ≤ D1*D2*b ≤ 2*N1*D2 ≤ 2*N2*D1 ≤ D1*D2*a
+  have k1 : D2 * (D1 * b) ≤ D2 * (2 * N1) := Nat.mul_le_mul_left D2 hLo
+  have k2 : D1 * (2 * N2) ≤ D1 * (D2 * a) := Nat.mul_le_mul_left D1 hU
+  have k0 : D2 * (D1 * a) ≤ D2 * (D1 * b) := Nat.mul_le_mul_left D2 (Nat.mul_le_mul_left D1 hab)
+  have e1 : D2 * (2 * N1) = 2 * (N1 * D2) := by ac_rfl
+  have e2 : D1 * (2 * N2) = 2 * (N2 * D1) := by ac_rfl
+  have e3 : D1 * (D2 * a) = D2 * (D1 * a) := by ac_rfl
+  have q1 : D2 * (D1 * a) = D2 * (D1 * b) := by omega
+  have q2 : D2 * (D1 * b) = D2 * (2 * N1) := by omega
+  have q3 : D1 * (2 * N2) = D1 * (D2 * a) := by omega
+  have hab' : a = b := Nat.eq_of_mul_eq_mul_left hD1 (Nat.eq_of_mul_eq_mul_left hD2 q1)
+  have t1 := c1.lower_tie hr1 (by rw [hb]; exact Nat.eq_of_mul_eq_mul_left hD2 q2)
+  have t2 := c2.upper_tie hr2 (by rw [ha]; exact Nat.eq_of_mul_eq_mul_left hD1 q3)
+  have : r2 = r1 - 1 := by
+    apply Classical.byContradiction; intro hne
+    have := ival_strictMono f (show r2 < r1 - 1 by omega)
+    omega
+  omega
+
+/-- The cell determines the result: any pattern whose cell contains `num/den` is `roundNE f num den`. -/
+theorem roundNE_unique {f : Fmt} (hf : WF f) {num den r : Nat} (hd : den ≠ 0)
+    (c : InCell f (num * 2 ^ (L f)) den r) : roundNE f num den = r := by
+  have c' := inCell_roundNE hf num hd
+  have hd' := Nat.pos_of_ne_zero hd
+  exact Nat.le_antisymm (inCell_mono c' c hd' hd' (Nat.le_refl _))
+    (inCell_mono c c' hd' hd' (Nat.le_refl _))
+
 end LexVerif.Proof.RoundNE
